@@ -59,7 +59,9 @@ def source_strategy(tier, doc_kw=None, weights=(14, 3, 3), gen_max_hosts=None):
     g = st.builds(lambda p: {"kind": "gen", "params": p},
                   sources.gen_params(max_hosts=mh, max_services=5))
     big = st.builds(lambda p: {"kind": "gen", "params": p}, sources.gen_params_large())
-    return weighted([(weights[0] * 4, d), (weights[1] * 4, s), (weights[2] * 4, g), (max(1, sum(weights) // 5), big)])
+    rich = st.builds(lambda p: {"kind": "gen", "params": p}, sources.gen_params_many_features())
+    extra = max(1, sum(weights) // 5)
+    return weighted([(weights[0] * 4, d), (weights[1] * 4, s), (weights[2] * 4, g), (extra, big), (extra, rich)])
 
 
 MODES = st.fixed_dictionaries({
